@@ -36,8 +36,8 @@ Definition assoc_send (pre : bool) (s : N) (e : ev) : res unit * N :=
   | Ok s' => (Ok tt, s')
   end.
 
-(* DlmsConnection.next_event after the APDU has been decoded (and unprotected) *)
-Definition assoc_recv (pre : bool) (s : N) (e : ev) : res unit * N :=
+(* DlmsConnection._next_event after the APDU has been decoded (and unprotected): the state it would leave behind *)
+Definition assoc_recv_raw (pre : bool) (s : N) (e : ev) : res unit * N :=
   let k := e_kind e in
   if pre && ((k =? E_AARE) || (k =? E_RLRE)) then (Err EPreEst, s) else
   match process_event s k with
@@ -71,4 +71,11 @@ Definition assoc_recv (pre : bool) (s : N) (e : ev) : res unit * N :=
             else (Err EProto, s2)
           else (Ok tt, s2)
       end
+  end.
+
+(* DlmsConnection.next_event (fix 47ff9e5): when anything raises, the state is put back *)
+Definition assoc_recv (pre : bool) (s : N) (e : ev) : res unit * N :=
+  match assoc_recv_raw pre s e with
+  | (Ok tt, s') => (Ok tt, s')
+  | (Err x, _) => (Err x, s)
   end.
